@@ -50,6 +50,35 @@ def make_cases(rng, tier, n):
             stats["missing_index"] = stats.get("missing_index", 0) + 1
             cases.append(c)
             continue
+        if not pipe and i % 12 == 2:
+            # a cache written by an early dud (manifests in the untagged schema): reading commands read it, none rewrites it
+            arts_ = s1eval.artifacts(c)
+            ops = [("commit", rng.choice("lc"), []), ("oldschema",), ("status", []), ("graph", []), ("run", False, [])]
+            if rng.random() < 0.5:
+                ops.append(("rm", rng.choice(arts_)[0]))
+            ops += [("checkout", rng.choice("lc"), False, []), ("push", False, []), ("status", []), ("checkout", "c", False, [])]
+            c["ops"] = ops
+            c["tail_ops"] = []
+            c["hist_info"] = dict(commits=1)
+            stats["old_schema_cache"] = stats.get("old_schema_cache", 0) + 1
+            cases.append(c)
+            continue
+        if not pipe and i % 12 == 5:
+            # an output that was committed as a cached artifact (a link into the cache now) is declared `skip-cache: true` by an edit
+            # of the stage file: from then on no command may modify, move or replace it
+            cand = [(sp, p, fl) for sp, st in c["stages"] for p, fl in st.get("out", []) if "s" not in fl and "d" not in fl]
+            if not cand:
+                c["init"].append(("file", b"metrics.json", "g:%d:40" % rng.randrange(1000)))
+                c["stages"].append((b"metrics.yaml", dict(cmd=b"", wd=b".", out=[(b"metrics.json", "")])))
+                cand = [(b"metrics.yaml", b"metrics.json", "")]
+            sp_, p_, fl_ = rng.choice(cand)
+            c["ops"] = [("commit", "l" if (i // 12) % 3 else "c", []), ("setskip", sp_, p_), ("status", []), ("checkout", "l", False, []), ("status", []),
+                        ("checkout", "c", False, []), ("run", False, []), ("push", False, []), ("status", [])]
+            c["tail_ops"] = []
+            c["hist_info"] = dict(commits=1)
+            stats["cached_to_skip"] = stats.get("cached_to_skip", 0) + 1
+            cases.append(c)
+            continue
         if pipe and i % 10 == 6:
             # a stage whose working directory does not exist and lies INSIDE its own directory output; its command touches nothing:
             # whatever `dud run` answers, dud itself creates nothing below the output
@@ -177,6 +206,8 @@ def oracle(run):
         snap = st["snap"]
         if k == "setcmd":
             cmds[op[1]] = op[2]
+        if k == "setskip":
+            skipc.append((op[2], "s"))
         if k == "run":
             # a stage whose command does not touch anything: whatever changed below its outputs was done by dud itself
             for sp, stg in case["stages"]:
@@ -200,7 +231,7 @@ def oracle(run):
         if k in ("run", "status", "graph", "checkout", "push", "stageadd", "stagerm"):
             if prev["cache"] != snap["cache"] or prev["stray"] != snap["stray"]:
                 v.append(("cache-changed", "%s added, changed or removed a cache object" % what))
-        if k in ("commit", "status", "graph", "push", "fetch", "stageadd", "stagerm"):
+        if k in ("commit", "status", "graph", "push", "fetch", "stageadd", "stagerm", "checkout", "pull"):
             # no dud command (commit included) touches a plain input or a skip-cache artifact
             for p, fl in plain + skipc:
                 if ws_under(prev, p) != ws_under(snap, p):
